@@ -105,6 +105,12 @@ type Node struct {
 	done         bool
 	// Offending marks header hashes whose delivery is an offence (forbidden / checkpoint-contradicting headers).
 	Offending map[chainhash.Hash]bool
+	// RedeliveryCounts: a reply that carries an offending header which this node has delivered before (on any connection)
+	// marks the connection as offended, too. Default false: only the first delivery of an offending header is an offence
+	// the service is expected to act upon (it skips headers it already has - see the open finding of C07).
+	RedeliveryCounts bool
+	offDelivered     map[chainhash.Hash]bool
+	redeliveries     int
 	// Insert, if set, may replace the headers of a reply (fault injection: forbidden / contradicting headers).
 	Insert func(reply []*wire.BlockHeader, connID int, nthGetHeaders int) ([]*wire.BlockHeader, bool)
 }
@@ -373,7 +379,15 @@ func (n *Node) onGetHeaders(cn *conn, m *wire.MsgGetHeaders) bool {
 	stalled := spec.StallAt > 0 && k >= spec.StallAt
 	if !stalled && len(n.Offending) > 0 {
 		for _, h := range reply {
-			if n.Offending[h.BlockHash()] && !cn.offended {
+			if hh := h.BlockHash(); n.Offending[hh] && !cn.offended {
+				if n.offDelivered == nil {
+					n.offDelivered = map[chainhash.Hash]bool{}
+				}
+				if n.offDelivered[hh] && !n.RedeliveryCounts {
+					n.redeliveries++
+					continue
+				}
+				n.offDelivered[hh] = true
 				cn.offended = true
 				cn.offendedAt = time.Now()
 			}
@@ -509,6 +523,13 @@ func (n *Node) admittedBetweenOld(from, to time.Time, minLife time.Duration) (ad
 		}
 	}
 	return admitted, attempts
+}
+
+// Redeliveries counts replies that carried an offending header this node had delivered before.
+func (n *Node) Redeliveries() int {
+	n.mu.Lock()
+	defer n.mu.Unlock()
+	return n.redeliveries
 }
 
 // EverOffended reports whether an offending reply was sent on any connection.
